@@ -43,13 +43,13 @@ def main():
                 if not (os.path.exists(diff) and os.path.exists(demo)):
                     continue
                 sh(["git", "-C", WT, "checkout", "--", "."])
-                d0 = sh(["/venv/bin/python", demo], cwd=WT)
+                d0 = sh(["/venv/bin/python", demo], cwd=WT, env=dict(os.environ, PYTHONPATH=WT))
                 ap = sh(["git", "-C", WT, "apply", diff])
                 if ap.returncode != 0:
                     print(f"{outdir} change{k}: patch does not apply: {ap.stderr[:200]}")
                     continue
                 imp = sh(["/venv/bin/python", "-c", "import staircase, sys; print(staircase.__file__)"], cwd=WT)
-                d1 = sh(["/venv/bin/python", demo], cwd=WT)
+                d1 = sh(["/venv/bin/python", demo], cwd=WT, env=dict(os.environ, PYTHONPATH=WT))
                 t = sh(["/venv/bin/python", "-m", "pytest", "-q", "-p", "no:cacheprovider", "-x", "-n", "8"], cwd=WT)
                 summary = [l for l in t.stdout.strip().split("\n") if "passed" in l or "failed" in l][-1:] or [t.stdout[-200:]]
                 files = sh(["git", "-C", WT, "diff", "--stat"]).stdout.strip()
